@@ -96,6 +96,21 @@ def mutants(rng, n):
             ("oversize", 'rule r { condition: 99999999999999999999999 > 1 }'),
             ("oversize", 'rule r { strings: %s condition: any of them }' % " ".join('$s%d = "abcdef%d"' % (i, i) for i in range(12000))),
             ("include-loop", 'include "self.yar"'), ("include-missing", 'include "nope.yar"')]
+    # strings that are split into chained pieces (a jump of more than 200 bytes at the top level) with ONE piece that cannot be compiled
+    # (too many alternatives / too much code / a bad range), at every position of the chain: the pieces already split off and the
+    # remainder must all be released on the error path
+    ok_piece = ["41 42 43 44", "61 ?? 63 64", "( 30 | 31 ) 32 33 34"]
+    bad_pieces = [" ".join("( 01 | 02 )" for _ in range(130)), "( " + " | ".join("%02X %02X" % (k, k) for k in range(200)) + " ) " * 1 + " ".join("( 0%d | 1%d )" % (k % 10, k % 10) for k in range(129)),
+                  " ".join("[1-2] %02X" % (k % 256) for k in range(3000))]
+    for bad in bad_pieces:
+        for npieces in (2, 3, 4):
+            for badpos in range(npieces):
+                pieces = [bad if k == badpos else ok_piece[k % 3] for k in range(npieces)]
+                jump = rng.choice(["[300]", "[201-400]", "[250-]"])
+                out.append(("chained-piece-error", "rule r { strings: $a = { %s } condition: $a }" % (" %s " % jump).join(pieces)))
+    for badpos in range(3):
+        pieces = ["(x|y){0,1}" * 140 if k == badpos else "abc%d" % k for k in range(3)]
+        out.append(("chained-piece-error", "rule r { strings: $a = /%s/ condition: $a }" % ".{300,400}".join(pieces)))
     while len(out) < n:
         src = rng.choice(SEEDS)
         b = bytearray(src.encode())
